@@ -440,6 +440,7 @@ class ProdParser:
         store=None,
         emptyOk=False,
         debug=False,
+        commentsAsTokens=False,
     ):
         """
         text (or token generator)
@@ -467,6 +468,9 @@ class ProdParser:
             values found
         emptyOk
             if True text may be empty, hard to test before as may be generator
+        commentsAsTokens
+            if True a COMMENT is given to the productions like any other
+            token instead of being appended to Seq
 
         returns
             :wellformed: True or False
@@ -510,7 +514,7 @@ class ProdParser:
             type_, val, line, col = token
 
             # default productions
-            if type_ == self.types.COMMENT:
+            if type_ == self.types.COMMENT and not commentsAsTokens:
                 # always append COMMENT
                 seq.append(
                     cssutils.css.CSSComment(val), cssutils.css.CSSComment, line, col
